@@ -130,3 +130,5 @@ void h_pub0_pipe_close(void)
 	pub0_pipe_close(arg);
 	VP_CANARY();
 }
+void h_pub0_pipe_stop(void) { VP_HAVOC_GHOSTS(); vp_mk_pub(nondet_size_t()); pub0_pipe_stop(g_pp0); VP_CANARY(); }
+void h_pub0_pipe_fini(void) { VP_HAVOC_GHOSTS(); vp_mk_pub(nondet_size_t()); pub0_pipe_fini(g_pp0); VP_CANARY(); }
